@@ -82,6 +82,11 @@ CLAIMS = {
     'C18': (TECH_CENSUS, '§4 C18',
             'Decides totality (no crash) of the five public key parsers: all index / slice / copy sites reachable from them are discharged by the dominating '
             'length fact or fixed-size types; dependencies are trusted not to panic. Round-trip and curve conversion are numeric and not decided.'),
+    'C10': (TECH_RULES + ' + borrow-checker compile-fail witnesses (thorough)', '§4 C10',
+            'Decides three structural conditions that are necessary for history independence, not the behaviour itself: every operation reading through the '
+            'shared source first positions it absolutely at the offset of the requested entry and propagates a failed seek; seek(Start) of each layer '
+            'rewrites every position-dependent field (frozen, reviewed field lists) with a decompressor / chunk loaded in the same call; an open '
+            'ArchiveFile exclusively borrows the reader (compile-fail witnesses with compiling twins). Equality of returned bytes along a history is not decided.'),
 }
 
 NOT_APPLICABLE = {
